@@ -149,7 +149,13 @@ def build_input(rng, kind, kind2=None):
             extra = AntiSymmetricTensor("f", (x,), (y,)) * NonSymmetricTensor("c2", (x, y))
         term = tens * (free if free is not None else 1) * extra * rng.choice([1, Rational(1, 2), -2])
         if rng.random() < 0.3 and kind2 != "reduce":
-            it2 = avail[rng.choice(["t2_1", "p0_2_oo"])]
+            # sometimes a second copy of the same intermediate: the contracted indices of
+            # the two expansions must not coincide
+            same = name in ("t1_2", "p0_2_oo", "p0_2_vv", "t2eri_4", "t2sq", "t2eri_3") and rng.random() < 0.5
+            it2 = it if same else avail[rng.choice(["t2_1", "p0_2_oo"])]
+            if sum(1 for x in it2.default_idx if x in "ijklmno") > len(pool_o) or \
+                    sum(1 for x in it2.default_idx if x in "abcdefgh") > len(pool_v):
+                it2 = avail["p0_2_oo"] if len(pool_o) >= 2 else avail["p0_2_vv"]
             n2 = [pool_o.pop() if x in "ijklmno" else pool_v.pop() for x in it2.default_idx]
             t2 = it2.tensor(indices=n2, return_sympy=True)
             term = term * t2 * NonSymmetricTensor("g2", tuple(get_symbols(n2)))
